@@ -72,6 +72,7 @@ class CrossPoly:
 
 
 def build(chk):
+    c_effective_potential(chk)
     chk.assume_note("rounding is not modelled: '(x + dx) - x == dx' holds exactly in the reals")
     c_derivative(chk)
     c_gradient(chk)
@@ -176,6 +177,74 @@ def poly_multi(nvars, deg_each, tag="c"):
     def P(*vs):
         return sum(c * sp.Mul(*[v**e for v, e in zip(vs, k)]) for k, c in cs.items())
     return P
+
+
+def c_effective_potential(chk):
+    """EffectivePotential.derivT / derivField / deriv2FieldT / deriv2Field2 / allSecondDerivatives, run end to end THROUGH the real
+    helpers on a generic polynomial potential V(phi0, phi1, T) (2 fields): each returns the exact partial derivatives it is named after,
+    for every field point, temperature, scale and epsilon; derivT never evaluates the potential at a negative temperature."""
+    EP = "effectivePotential.EffectivePotential"
+    idx = [k for k in itertools.product(range(4), repeat=3) if sum(k) <= 3]
+    cs = {k: real(f"v{k[0]}{k[1]}{k[2]}") for k in idx}
+
+    def V(a, b, t):
+        return sum(c * a**k[0] * b**k[1] * t**k[2] for k, c in cs.items())
+    f0, f1, T = real("phi0"), real("phi1"), real("T")
+    eps, s0, s1, sT = real("epsilon"), real("s0"), real("s1"), real("sT")
+    pre = [Gt(eps, 0), Gt(s0, 0), Gt(s1, 0), Gt(sT, 0)]
+
+    def evaluate(it, so, a, k):
+        fields, temp = as_array(a[0]), as_array(a[1])
+        it.event(kind="V-call", fields=fields, T=temp)
+        phi0, phi1 = fields[..., 0], fields[..., 1]
+        b = np.broadcast(phi0, phi1, temp)
+        out = np.empty(b.shape, dtype=object)
+        out.flat = [V(x, y, t) for x, y, t in b]
+        return out if out.shape else out.item()
+    reg = {"EffectivePotential.evaluate": evaluate, "Fields.castFromNumpy": lambda it, cref, a, k: a[0],
+           "Fields.__new__": lambda it, cref, a, k: np.atleast_2d(as_array(a[0]))}
+
+    def make():
+        ds = SymObj(None, None, label="derivativeSettings", attrs={"temperatureVariationScale": sT, "fieldValueVariationScale": as_array([s0, s1])})
+        o = SymObj("EffectivePotential", "effectivePotential", label="veff",
+                   attrs={"fieldCount": 2, "effectivePotentialError": eps, "derivativeSettings": ds,
+                          "_EffectivePotential__combinedScales": as_array([s0, s1, sT])})
+        return o
+    x = [f0, f1, T]
+    exact1 = [sp.diff(V(*x), v) for v in x]
+    exact2 = [[sp.diff(V(*x), a, b) for b in x] for a in x]
+    cases = {
+        "derivT": (lambda v: [scalar(as_array(v))], [exact1[2]]),
+        "derivField": (lambda v: list(as_array(v).reshape(-1)), exact1[:2]),
+        "deriv2FieldT": (lambda v: list(as_array(v).reshape(-1)), [exact2[0][2], exact2[1][2]]),
+        "deriv2Field2": (lambda v: list(as_array(v).reshape(-1)), [exact2[0][0], exact2[0][1], exact2[1][0], exact2[1][1]]),
+        "allSecondDerivatives": (lambda v: list(as_array(v[0]).reshape(-1)) + list(as_array(v[1]).reshape(-1)) + [scalar(as_array(v[2]))],
+                                 [exact2[0][0], exact2[0][1], exact2[1][0], exact2[1][1], exact2[2][0], exact2[2][1], exact2[2][2]]),
+    }
+    for meth, (flat, want) in cases.items():
+        def mk(it):
+            for c in pre + ([Gt(T, 0)] if meth == "derivT" else []):
+                it.assume(c)
+            return make(), [as_array([[f0, f1]]), as_array(T) if meth == "derivT" else as_array([T])], {}, {}
+        paths = chk.summarize("effectivePotential", f"EffectivePotential.{meth}", mk, registry=reg)
+        rets = sel(paths)
+        if not rets or len(rets) != len(paths):
+            chk.undecided.append(f"EffectivePotential.{meth}: {len(paths) - len(rets)} non-returning paths of {len(paths)}")
+        for i, p in enumerate(rets):
+            try:
+                got = flat(p.value)
+            except Exception:
+                got = []
+            if len(got) != len(want):
+                chk.vc(f"EffectivePotential.{meth}.shape.{i}", p.pc, sp.false, func=f"{EP}.{meth}")
+                continue
+            for j, (g, w) in enumerate(zip(got, want)):
+                chk.vc(f"EffectivePotential.{meth}.is-the-named-derivative.{i}.{j}", p.pc, Eq(g, w), func=f"{EP}.{meth}")
+            chk.canary(f"EffectivePotential.{meth}.{i}", p.pc, Eq(got[0], want[0] + 1), func=f"{EP}.{meth}")
+            if meth == "derivT":
+                temps = [t for e in p.events if e.get("kind") == "V-call" for t in as_array(e["T"]).reshape(-1)]
+                chk.vc(f"EffectivePotential.derivT.temperature-never-negative.{i}", p.pc, And(*[Ge(t, 0) for t in temps]) if temps else sp.false,
+                       func=f"{EP}.derivT")
 
 
 def c_gradient(chk):
